@@ -67,7 +67,7 @@ pub fn term_info(r: RegLan, alpha: &Alphabet, memo: &mut Memo) -> Arc<TermInfo> 
             let hi = alpha.cell_of(e2);
             let aligned = s <= e && e <= 0x2FFFF && alpha.lo(lo) == s && alpha.hi(hi) == e;
             TermInfo {
-                ast: ast::cells(lo as u8, hi as u8),
+                ast: ast::cells(lo as crate::dfa::Cell, hi as crate::dfa::Cell),
                 dfa: if aligned {
                     Some(Arc::new(Dfa::cells(k, lo, hi)))
                 } else {
@@ -250,6 +250,9 @@ fn dag_size(r: RegLan, seen: &mut std::collections::HashSet<usize>) -> usize {
 
 /// a derivative with more distinct sub-terms than this makes the term "heavy"
 pub const PROBE_NODE_CAP: usize = 120;
+pub const PROBE_ROOT_NODE_CAP: usize = 3_000;
+/// sum over the enumerated derivatives of (distinct sub-terms x derivative classes)
+pub const PROBE_WORK_CAP: u64 = 1_500_000;
 
 /// Sizing probe: rebuild the term in a scratch manager (never the one under observation, so the
 /// observed manager's store and cache are untouched) and enumerate its derivatives there, giving
@@ -263,6 +266,7 @@ pub fn sizing_probe(r: RegLan) -> Option<usize> {
         let mut memo = HashMap::new();
         let c = copy_term(r, &mut m, &mut memo);
         let mut n = 0usize;
+        let mut work = 0u64;
         let mut it = m.iter_derivatives(c);
         loop {
             match it.next() {
@@ -274,7 +278,12 @@ pub fn sizing_probe(r: RegLan) -> Option<usize> {
                     }
                     let x: RegLan = unsafe { &*(x as *const aws_smt_strings::regular_expressions::RE) };
                     let mut seen = std::collections::HashSet::new();
-                    if dag_size(x, &mut seen) > PROBE_NODE_CAP {
+                    let size = dag_size(x, &mut seen);
+                    // the root may be a large term (a character class with hundreds of pieces) as
+                    // long as its derivatives are small; total work is bounded as well
+                    let cap = if n == 1 { PROBE_ROOT_NODE_CAP } else { PROBE_NODE_CAP };
+                    work += size as u64 * (x.num_deriv_classes() as u64 + 1);
+                    if size > cap || work > PROBE_WORK_CAP {
                         return None;
                     }
                 }
